@@ -104,7 +104,7 @@ Proof.
       * specialize (Hld own eq_refl). congruence.
       * apply (VRegL _ _ _ _ (set_ld (set_pc th (PGate1 load)) (Some (nextc s)))); try sc P; try assumption.
   - (* PLoadWait, wake *)
-    apply guard_some in H as [_ H]. inv H. vplain P (set_pc th (PStart false)).
+    apply guard_some in H as [_ H]. inv H. vplain P (set_waited (set_pc th (PStart false)) (Some ch)).
   - apply guard_some in H as [_ H]. inv H. vplain P (set_pc th (PRet RErr)).
   - inv H. vplain P (set_pc th (PRet RErr)).
   - (* PGate1 *)
@@ -131,7 +131,7 @@ Proof.
     + apply (VWaitO _ _ _ _ (set_pc th (PObtWait ch (now s))) ch); try sc P; try exact O.
     + apply (VRegO _ _ _ _ (set_pc th (PObtain (nextc s) (now s))) None); try sc P; try exact O.
   - (* PObtWait *)
-    apply guard_some in H as [_ H]. inv H. vplain P (set_pc th (PStart false)).
+    apply guard_some in H as [_ H]. inv H. vplain P (set_waited (set_pc th (PStart false)) (Some ch)).
   - apply guard_some in H as [_ H]. inv H. vplain P (set_pc th (PRet RErr)).
   - (* PObtain *)
     apply guard_some in H as [_ H]. inv H. vplain P (set_pc th (PObtLoad ch)).
@@ -156,11 +156,11 @@ Proof.
       * apply guard_some in H as [G H]. inv H. apply andb_true_iff in G as [G1 G2].
         apply negb_true_iff in G1. apply Nat.eqb_neq in G1.
         apply (VRegO _ _ _ _ (set_pc th (PRet (RCert c)))
-                 (Some (b, Thread (t_name th) (PRenGate (nextc s) c true (now s)) None CtxNone)));
+                 (Some (b, Thread (t_name th) (PRenGate (nextc s) c true (now s)) None CtxNone None)));
           try sc P; try exact O.
         repeat split; try sc P; try exact G1. destruct (thr s b); [discriminate|reflexivity].
   - (* PRenWait *)
-    apply guard_some in H as [_ H]. inv H. vplain P (set_pc th (PStart false)).
+    apply guard_some in H as [_ H]. inv H. vplain P (set_waited (set_pc th (PStart false)) (Some ch)).
   - apply guard_some in H as [_ H]. inv H. vplain P (set_pc th (PRet RErr)).
   - (* PRenGate *)
     destruct allow; inv H.
@@ -666,7 +666,7 @@ Proof.
   intros I H. destruct l; cbn [step] in H.
   - destruct (thr s t) as [th|] eqn:Ht; [|discriminate]. eapply thread_step_inv; eauto.
   - apply guard_some in H as [G H]. inv H.
-    apply (inv_arrive (abs s) _ t (info_of (Thread n (PStart true) None CtxNone)) I); try reflexivity.
+    apply (inv_arrive (abs s) _ t (info_of (Thread n (PStart true) None CtxNone None)) I); try reflexivity.
     + cbn. destruct (thr s t); [discriminate|reflexivity].
     + intros x. cbn. apply tb_upd.
   - apply guard_some in H as [G H]. inv H. apply (inv_stutter (abs s)); auto.
@@ -1135,6 +1135,145 @@ Lemma lazy_no_work p : lazy p = true ->
   | _ => True
   end.
 Proof. destruct p; cbn; try discriminate; auto. Qed.
+
+(** * 10. The history of a served expired certificate: a goroutine's [t_waited] is the channel whose
+    close woke it last; channels never re-open *)
+Ltac split_step H :=
+  repeat match type of H with
+         | guard _ _ = Some _ => apply guard_some in H as [?G H]
+         | context [match ?x with _ => _ end] => destruct x eqn:?
+         | context [if ?x then _ else _] => destruct x eqn:?
+         end.
+
+Lemma upd_true_mono (f : nat -> bool) c x : f x = true -> upd f c true x = true.
+Proof. intros H. unfold upd. destruct (Nat.eqb x c); auto. Qed.
+
+(** a closed channel stays closed *)
+Lemma step_closed_mono s t th a s' ch : thread_step s t th a = Some s' ->
+  closed s ch = true -> closed s' ch = true.
+Proof.
+  intros H C. unfold thread_step in H.
+  destruct (t_pc th) eqn:P; destruct a; try discriminate; split_step H; inv H; cbn;
+    try exact C; try (apply upd_true_mono; exact C).
+Qed.
+
+(** the history variable of the stepping goroutine changes only at a wake-up, whose guard is that
+    the channel is closed; a goroutine is at [PStart false] only right after a wake-up *)
+Lemma step_waited_self s t th a s' : thread_step s t th a = Some s' ->
+  exists th', thr s' t = Some th' /\
+    (t_waited th' = t_waited th \/ exists ch, t_waited th' = Some ch /\ closed s ch = true) /\
+    (t_pc th' = PStart false -> t_waited th' <> None).
+Proof.
+  intros H. unfold thread_step in H.
+  destruct (t_pc th) eqn:P; destruct a; try discriminate; split_step H; inv H; cbn;
+    rewrite ?upd_same;
+    try (rewrite upd_other, upd_same by (apply andb_true_iff in G as [G _]; apply negb_true_iff in G; apply Nat.eqb_neq in G; congruence));
+    eexists; (split; [reflexivity|]); cbn; (split; [first [left; reflexivity | right; eexists; split; [reflexivity|assumption]] | first [discriminate | intros _; discriminate]]).
+Qed.
+
+(** the other goroutines are untouched; a goroutine spawned by the step starts with no history *)
+Lemma step_waited_other s t th a s' : thread_step s t th a = Some s' ->
+  forall x thx, x <> t -> thr s' x = Some thx ->
+  thr s x = Some thx \/ (t_waited thx = None /\ t_pc thx <> PStart false).
+Proof.
+  intros H x thx Nx Hx. unfold thread_step in H.
+  destruct (t_pc th) eqn:P; destruct a; try discriminate; split_step H; inv H; cbn in Hx;
+    try (rewrite upd_other in Hx by exact Nx; left; exact Hx).
+  (* the spawning step *)
+  destruct (Nat.eq_dec x b) as [->|Nb].
+  - rewrite upd_same in Hx. inv Hx. right. split; [reflexivity|discriminate].
+  - rewrite upd_other in Hx by exact Nb. rewrite upd_other in Hx by exact Nx. left; exact Hx.
+Qed.
+
+Definition WInv (s : state) : Prop :=
+  forall t th, thr s t = Some th ->
+    (forall ch, t_waited th = Some ch -> closed s ch = true) /\
+    (t_pc th = PStart false -> t_waited th <> None).
+
+Lemma winv_step s l s' : WInv s -> step s l = Some s' -> WInv s'.
+Proof.
+  intros W H. destruct l; cbn in H.
+  - destruct (thr s t) as [th|] eqn:Ht; [|discriminate].
+    intros x thx Hx. destruct (Nat.eq_dec x t) as [->|Nx].
+    + destruct (step_waited_self _ _ _ _ _ H) as (th' & Ht' & Wd & Ps).
+      rewrite Ht' in Hx. inv Hx. split; [|exact Ps].
+      intros ch Hc. destruct Wd as [E|(c & E & C)].
+      * rewrite E in Hc. eapply step_closed_mono; [exact H|]. exact (proj1 (W _ _ Ht) ch Hc).
+      * rewrite E in Hc. inv Hc. eapply step_closed_mono; eauto.
+    + destruct (step_waited_other _ _ _ _ _ H x thx Nx Hx) as [Hs|[E P]].
+      * destruct (W _ _ Hs) as [A B]. split; [|exact B].
+        intros ch Hc. eapply step_closed_mono; [exact H|]. exact (A ch Hc).
+      * split; [intros ch Hc; congruence|intros Q; contradiction].
+  - apply guard_some in H as [G H]. inv H. intros x thx Hx. cbn in Hx.
+    destruct (Nat.eq_dec x t) as [->|Nx].
+    + rewrite upd_same in Hx. inv Hx. split; [intros ch Hc; discriminate|discriminate].
+    + rewrite upd_other in Hx by exact Nx. exact (W _ _ Hx).
+  - apply guard_some in H as [G H]. inv H. exact W.
+  - inv H. exact W.
+  - inv H. exact W.
+  - inv H. exact W.
+Qed.
+
+Lemma winv_run ls : forall s s', WInv s -> run s ls = Some s' -> WInv s'.
+Proof.
+  induction ls as [|l ls IH]; intros s s' W H; cbn in H; [inv H; exact W|].
+  destruct (step s l) as [s1|] eqn:E; [|discriminate]. eapply IH; [|exact H]. eapply winv_step; eauto.
+Qed.
+
+Theorem reachable_winv s : reachable s -> WInv s.
+Proof.
+  intros (c0 & s0 & f0 & ls & H). eapply winv_run; [|exact H].
+  intros t th Ht. discriminate.
+Qed.
+
+(** an expired certificate is handed back only (a) by a goroutine that re-entered after a wait,
+    and then the channel it waited on is closed: the attempt it waited for is over (its worker has
+    released: the renewal it depended on can no longer succeed or fail); or (b) by a worker as the
+    result of its own load of the bundle in storage *)
+Theorem expired_returned_only_after_wait_over s t th a s' th' c : reachable s ->
+  thr s t = Some th -> thread_step s t th a = Some s' -> thr s' t = Some th' ->
+  t_pc th' = PRet (RCert c) -> expired c = true -> t_pc th <> PRet (RCert c) ->
+  (t_pc th = PStart false /\ exists ch, t_waited th = Some ch /\ closed s ch = true) \/
+  (exists ch, t_pc th = PObtUnblock ch (RCert c)) \/
+  (exists ch c0 bg, t_pc th = PRenUnblock ch c0 (RCert c) bg).
+Proof.
+  intros R Ht H Ht' P' Ex Np.
+  destruct (expired_returned_only_after_wait_partial _ _ _ _ _ _ _ H Ht' P' Ex Np) as [A|[B|C]]; auto.
+  left. split; [exact A|].
+  destruct (reachable_winv s R t th Ht) as [W1 W2].
+  destruct (t_waited th) as [ch|] eqn:E; [|exfalso; apply (W2 A); reflexivity].
+  exists ch. split; [reflexivity|]. apply W1; reflexivity.
+Qed.
+
+
+(** the strict reading of "an expired certificate is not served while its renewal can still
+    succeed" is false of the model (and of the code): a goroutine that waited for a renewal which
+    failed is served the cached expired certificate on re-entry, even when meanwhile a LATER handshake
+    has started a new renewal that can still succeed *)
+Definition cexp : cert := Cert 1 Expired false.
+Definition refuted_run : list label :=
+  [LArrive 0 0; LThread 0 (AStep 9); LThread 0 (AStep 9); LThread 0 (AStep 9);          (* T0: hit, maintenance, renewal worker at its gate *)
+   LArrive 1 0; LThread 1 (AStep 9); LThread 1 (AStep 9); LThread 1 (AStep 9);          (* T1: hit, waits for T0's renewal *)
+   LThread 0 (AGate true); LThread 0 (AStep 9); LThread 0 (AIssue OFail);               (* T0's issuer call fails *)
+   LThread 0 (AStep 9); LThread 0 (AStep 9);                                            (* T0 releases, returns the error *)
+   LArrive 2 0; LThread 2 (AStep 9); LThread 2 (AStep 9); LThread 2 (AStep 9);          (* T2: hit, new renewal worker *)
+   LThread 2 (AGate true); LThread 2 (AStep 9);                                         (* T2 at the issuer *)
+   LThread 1 AWake; LThread 1 (AStep 9); LThread 1 (AStep 9)]%nat.                      (* T1 re-enters: served the expired certificate *)
+Definition refuted_init : state :=
+  init (fun n => match n with O => [cexp] | _ => [] end) (fun n => match n with O => Some cexp | _ => None end) 2%nat.
+
+Lemma expired_served_during_later_renewal :
+  exists s, reachable s /\ exists t1 t2 th1 th2 c ch st,
+    thr s t1 = Some th1 /\ t_pc th1 = PDone (RCert c) /\ expired c = true /\
+    thr s t2 = Some th2 /\ t_name th2 = t_name th1 /\ t2 <> t1 /\
+    t_pc th2 = PRenIssue ch c false st /\ omap s (t_name th1) = Some ch.
+Proof.
+  destruct (run refuted_init refuted_run) as [s|] eqn:E; [|vm_compute in E; discriminate].
+  exists s. split; [eexists _, _, _, refuted_run; exact E|].
+  vm_compute in E. inversion E. clear E.
+  exists 1%nat, 2%nat. eexists. eexists. exists cexp, 1%nat, 0.
+  cbn. repeat split; discriminate.
+Qed.
 
 (** * The statement shapes of the source the LTS was written against (translator item
     c13EmitC13Shape): every re-entry into getCertDuringHandshake passes loadOrObtainIfNecessary =
